@@ -109,6 +109,16 @@ Proof.
 Qed.
 Print Assumptions params_sticky_until_cleared_refuted.
 
+(* the documented behaviour of the two entry points the other theorems take as hypotheses *)
+Example clear_params_really_clears : clear_params_clears_map = true.
+Proof. vm_compute. reflexivity. Qed.
+
+Example parse_source_empties_the_message : errclear_parse = ErrClearPush.
+Proof. vm_compute. reflexivity. Qed.
+
+Example reset_chain_is_reached : chain_runs = true.
+Proof. vm_compute. reflexivity. Qed.
+
 Example params_guard_satisfiable :
   let h := [OSetParamE 0 1; OSetParamV 1 4; OClearParams; OSetParamV 0 2; OSetParamE 0 3; OSetParamE 2 5] in
   no_form_switch (rev h) 0 = true /\ last_set (rev h) 0 = Some (true, 3) /\ last_set (rev h) 1 = None.
